@@ -843,3 +843,76 @@ def c08_distribution(cases, results):
                 key = op[0] + (str(len(op[1])) if op[0] == "get" else "")
                 d["colt_ops"][key] = d["colt_ops"].get(key, 0) + 1
     return d
+
+
+# ====================================================================== C10: variadics/src/lib.rs tuple-list operations
+
+
+def _g_opt_n(x):
+    return "None" if x is None else "(Some %d)" % x
+
+
+def var_term(case, res):
+    need = ("reverse", "extend", "len", "splits", "suffix_splits", "hget", "into_iter", "into_option", "eq",
+            "vec_zip", "vec_get", "vec_drained")
+    if any(k not in res for k in need):
+        return 3
+    # the by-reference / const variants must agree with the by-value ones
+    if (res.get("reverse_ref") != res["reverse"] or res.get("LEN") != res["len"] or res.get("eq_ref") != res["eq"]
+            or res.get("as_ref") != case["row"] or res.get("into_zip") != res["vec_zip"]):
+        return 3
+
+    def pairs(ps):
+        return "[" + "; ".join("(Some (%s, %s))" % (g_row(p[0]), g_row(p[1])) for p in ps) + "]"
+
+    d = res["vec_drained"]
+    obs = "(Build_vobs %s %s %d %s %s %s %s %s %s %s %s %s)" % (
+        g_row(res["reverse"]), g_row(res["extend"]), res["len"], pairs(res["splits"]), pairs(res["suffix_splits"]),
+        "[" + "; ".join(_g_opt_n(x) for x in res["hget"]) + "]", g_row(res["into_iter"]),
+        "[" + "; ".join(_g_opt_n(x) for x in res["into_option"]) + "]", g_bool(res["eq"]),
+        g_rows(res["vec_zip"]), "None" if res["vec_get"] is None else "(Some %s)" % g_row(res["vec_get"]),
+        "None" if d is None else "(Some (%s, %s))" % (g_rows(d[0]), g_rows(d[1])))
+    return "(var_chk %s %s %s %d%%nat %d%%nat %d%%nat %s)" % (
+        g_row(case["row"]), g_row(case["row2"]), g_rows(case["rows"]), case["idx"], case["lo"], case["hi"], obs)
+
+
+def gen_var_case(rng, tier):
+    arity = rng.range(1, 4)
+    dom = rng.choice([2, 3, 10, 1000])
+    row = [rng.below(dom) for _ in range(arity)]
+    r = rng.below(4)
+    row2 = list(row) if r == 0 else [rng.below(dom) for _ in range(arity)]
+    if r == 1:
+        row2 = list(row)
+        row2[rng.below(arity)] += 1
+    nrows = rng.range(0, 6)
+    rows = [[rng.below(dom) for _ in range(arity)] for _ in range(nrows)]
+    lo = rng.range(0, nrows + 1)
+    hi = rng.range(0, nrows + 1) if rng.chance(1, 4) else rng.range(min(lo, nrows), nrows)
+    return {"k": "var", "row": row, "row2": row2, "rows": rows, "idx": rng.range(0, nrows + 1),
+            "lo": lo, "hi": hi, "src": "rnd"}
+
+
+def c10_term(case, res):
+    return var_term(case, res) if case.get("k") == "var" else vc_term(case, res)
+
+
+def gen_c10(rng, tier, n):
+    cases = gen_vc(rng, tier, n)
+    for _ in range(max(60, n // 4)):
+        cases.append(gen_var_case(rng, tier))
+    return cases
+
+
+def c10_distribution(cases, results):
+    v = [(c, r) for c, r in zip(cases, results) if c.get("k") == "vc"]
+    d = vc_distribution([c for c, _ in v], [r for _, r in v])
+    var = [c for c in cases if c.get("k") == "var"]
+    d["variadic_op_cases"] = {"count": len(var), "arity": {}, "drain_ok": 0, "drain_panics": 0}
+    for c, r in zip(cases, results):
+        if c.get("k") != "var":
+            continue
+        a = str(len(c["row"]))
+        d["variadic_op_cases"]["arity"][a] = d["variadic_op_cases"]["arity"].get(a, 0) + 1
+        d["variadic_op_cases"]["drain_ok" if r.get("vec_drained") is not None else "drain_panics"] += 1
+    return d
